@@ -215,6 +215,22 @@ pub fn extra_workloads() -> Vec<Workload> {
             write_set: vec![],
         },
         Workload {
+            name: "D3-describe-vs-replacement-of-a-binary-descriptor",
+            about: "(C18) describe() while another thread REPLACES the descriptor registered for that operator: old or new, never the default",
+            pre: vec![Exec("1 + 1"), SetBinaryDescriptor("+", "OLD")],
+            threads: vec![vec![Describe("a + b"), Describe("a + b")], vec![SetBinaryDescriptor("+", "NEW")]],
+            post: vec![Describe("a + b")],
+            write_set: vec![],
+        },
+        Workload {
+            name: "D4-describe-vs-replacement-of-a-reference-descriptor",
+            about: "(C18) the same for a reference descriptor",
+            pre: vec![Exec("1 + 1"), SetReferenceDescriptor("x", "OLD")],
+            threads: vec![vec![Describe("x - y"), Describe("[x]")], vec![SetReferenceDescriptor("x", "NEW")]],
+            post: vec![Describe("x")],
+            write_set: vec![],
+        },
+        Workload {
             name: "D2-describe-vs-reference-descriptor",
             about: "(C18) describe() of references while another thread registers a reference descriptor",
             pre: vec![Exec("1 + 1")],
